@@ -156,6 +156,7 @@ func mergeFns(w *World) []*ssa.Function {
 }
 
 func ruleDocsMerge(c *Ctx) {
+	checkNothingOnlyOnAncestry(c)
 	c.Doc("R2.1", "report/effect agreement: an Invalid or Nothing report is unreachable (within one loop iteration) from the success of any ref-moving call; New is dominated by a successful CopyRef; Updated by a successful UpdateRef (or the true result of a callee that moves the ref); (*Identity).Merge returns true exactly on the paths where it moved the ref")
 	c.Doc("R2.2", "every ref-moving call of a merge function is dominated by the success edge of the remote read and of Validate() on what was read")
 	c.Doc("R2.3", "the entity handed to NewMergeNewStatus/NewMergeUpdatedStatus is the merged one: read from the remote ref when the local ref was set to it, or read from the local ref after the last ref update, or the receiver of the merging callee")
@@ -1421,4 +1422,73 @@ func mergeStatusName(w *World, k int64) string {
 		}
 	}
 	return ""
+}
+
+// R2.11: "nothing to do" is answered on evidence of ancestry only. Lamport order is not ancestry: a remote
+// head older than the local one may still sit on a branch the local history does not contain.
+func checkNothingOnlyOnAncestry(c *Ctx) {
+	w := c.W
+	c.Doc("R2.11", "in entity/dag.merge every Nothing report is control dependent only on comparisons of commit hashes (heads equal, remote head found among the local commits — directly, through a flag or a membership helper) and on the success of preceding calls: no comparison of times, counts or anything else decides that a remote history holds nothing new")
+	fn := w.Func("entity/dag", "merge")
+	if fn == nil {
+		c.Undecided("R2.11", "anchor:entity/dag.merge", "entity/dag", "not found")
+		return
+	}
+	c.seeFn(funcName(fn))
+	n := 0
+	for _, cl := range Calls(fn) {
+		if cl.Name != "entity.NewMergeNothingStatus" {
+			continue
+		}
+		n++
+		c.Sites++
+		bad := ""
+		for _, cc := range controlConds(cl.Block(), nil) {
+			if isLoopHeader(cc.If.Block()) || errNilEdge(cc) {
+				continue
+			}
+			okCond := false
+			switch x := cc.If.Cond.(type) {
+			case *ssa.BinOp:
+				if x.Op == token.EQL || x.Op == token.NEQ {
+					tn := typeShortName(x.X.Type())
+					if tn == "repository.Hash" || tn == "entity.Id" || isErrorType(x.X.Type()) {
+						okCond = true
+					}
+					if _, isBool := x.X.Type().Underlying().(*types.Basic); isBool && x.X.Type().Underlying().(*types.Basic).Kind() == types.Bool {
+						okCond = true
+					}
+				}
+			case *ssa.Extract:
+				// a boolean answered by a repository call (RefExist)
+				if _, isCall := x.Tuple.(*ssa.Call); isCall {
+					okCond = true
+				}
+			case *ssa.Phi, *ssa.Call, *ssa.UnOp:
+				// a flag set by the membership loop, a membership helper / closure, or its negation
+				if b, isB := cc.If.Cond.Type().Underlying().(*types.Basic); isB && b.Kind() == types.Bool {
+					okCond = true
+					if cv, isCall := x.(*ssa.Call); isCall {
+						okCond = false
+						if h := cv.Common().StaticCallee(); h != nil && membershipPred(h) != nil {
+							okCond = true
+						}
+						if _, isMC := cv.Common().Value.(*ssa.MakeClosure); isMC {
+							okCond = true
+						}
+						if u, isU := cv.Common().Value.(*ssa.UnOp); isU {
+							_ = u
+							okCond = true
+						}
+					}
+				}
+			}
+			if !okCond {
+				bad = "the test at " + w.InstrPos(cc.If)
+			}
+		}
+		c.Check(bad == "", "R2.11", fmt.Sprintf("entity/dag.merge:nothing-on-ancestry-only#%d", n), w.InstrPos(cl.Instr), "decided by commit-hash comparisons only",
+			"a Nothing report depends on "+bad+", which is not a comparison of commit hashes: with concurrent branches of unequal length the replica holding the longer one answers 'nothing to do' on every pull, never receives the other branch, and its pushes are refused as non fast-forward")
+	}
+	c.Check(n >= 1, "R2.11", "expected:nothing-reports", w.FnPos(fn), fmt.Sprintf("%d Nothing report(s)", n), "no Nothing report found in merge")
 }
